@@ -1,3 +1,4 @@
+import DigModel.DotText
 import Lean.Data.Json
 import DigModel.Api
 import DigModel.Dot
@@ -211,12 +212,25 @@ def runGraph (j : Json) : R Json := do
   | .cycle p => pure (Json.mkObj [("ok", false), ("cycle", Json.arr (p.map jn).toArray)])
   | .oof => pure (Json.mkObj [("ok", false), ("cycle", Json.arr #[]), ("fuel", true)])
 
+/-- K-label request: the attribute text of a result / group node -/
+def runLabel (j : Json) : R Json := do
+  let who ← jstr j "who"
+  let t ← jstr j "tstr"
+  let name ← jstr j "name"
+  let group ← jstr j "group"
+  let err ← jnat j "err"
+  let text :=
+    if who == "group" then DotText.groupAttr t.toList name.toList err
+    else DotText.resultAttr t.toList name.toList group.toList
+  pure (Json.mkObj [("text", Json.str (String.ofList text))])
+
 def handleLine (line : String) : String :=
   match Json.parse line with
   | .error e => (Json.mkObj [("error", Json.str e)]).compress
   | .ok j =>
     match jstr j "kind" with
     | .ok "graph" => (match runGraph j with | .ok r => r.compress | .error e => (Json.mkObj [("error", Json.str e)]).compress)
+    | .ok "label" => (match runLabel j with | .ok r => r.compress | .error e => (Json.mkObj [("error", Json.str e)]).compress)
     | _ =>
       match decProgram j with
       | .error e => (Json.mkObj [("error", Json.str e)]).compress
